@@ -18,7 +18,7 @@ CHECK = {
             "operation is applied from every state; every history is run on a fresh real cache. evaluations = "
             "histories executed; non-trivial = histories in which some call changed the model state, distinct by "
             "construction (configuration, sequence); states/transitions = BFS totals over all configurations",
-    "bounds_quick": "396 configurations (MaxSize {0,3,4,6} x MaxElementSize {0,2,3} x MaxCount {0,1,2} x (no LRU | "
+    "bounds_quick": "396 configurations + 27 with an element limit above the size limit + 36 with limits of 2^31..2^64-1 (MaxSize {0,3,4,6} x MaxElementSize {0,2,3} x MaxCount {0,1,2} x (no LRU | "
                     "LRU x {no OnDelete, recorder, 8 re-entrant scripts})); sequences to depth 3; BFS to fixpoint "
                     "(cap 60000 states per configuration)",
     "bounds_thorough": "1056 configurations (MaxSize also 2,5; MaxCount also 3); sequences to depth 4; BFS as quick",
